@@ -23,26 +23,37 @@ def norm_table(rows: List[dict]) -> List[Tuple[str, List[Tuple[str, Any]]]]:
     return sorted(out, key=lambda r: (str(r[0]), repr(r[1])))
 
 
-async def do_op(client: Any, op: dict) -> Any:
-    """Run one raw-API operation; result in reference representation."""
+async def do_op(client: Any, op: dict, args: Optional[dict] = None) -> Any:
+    """Run one raw-API operation; result in reference representation.  With *args* (a dict owned by the caller) the argument
+    containers (OID lists, the SET mapping) are built once per distinct operation and the SAME objects are handed to the
+    client whenever that operation is repeated - as a poller with constant argument lists does."""
     k = op["op"]
+
+    def keep(name: str, build: Any) -> Any:
+        if args is None:
+            return build()
+        key = (k, name, repr(sorted((kk, vv) for kk, vv in op.items() if kk != "op")))
+        if key not in args:
+            args[key] = build()
+        return args[key]
     if k == "get":
         return to_ref(await client.get(OID(op["oid"])))
     if k == "multiget":
-        return [to_ref(v) for v in await client.multiget([OID(o) for o in op["oids"]])]
+        return [to_ref(v) for v in await client.multiget(keep("oids", lambda: [OID(o) for o in op["oids"]]))]
     if k == "getnext":
         vb = await client.getnext(OID(op["oid"]))
         return (oid_t(vb.oid), to_ref(vb.value))
     if k == "multigetnext":
-        return [(oid_t(vb.oid), to_ref(vb.value)) for vb in await client.multigetnext([OID(o) for o in op["oids"]])]
+        return [(oid_t(vb.oid), to_ref(vb.value))
+                for vb in await client.multigetnext(keep("oids", lambda: [OID(o) for o in op["oids"]]))]
     if k == "set":
         return to_ref(await client.set(OID(op["oid"]), from_ref(op["val"])))
     if k == "multiset":
-        res = await client.multiset({OID(o): from_ref(v) for o, v in op["items"]})
+        res = await client.multiset(keep("items", lambda: {OID(o): from_ref(v) for o, v in op["items"]}))
         return [(oid_t(o), to_ref(v)) for o, v in res.items()]
     if k == "bulkget":
-        res = await client.bulkget([OID(o) for o in op["scalars"]], [OID(o) for o in op["repeaters"]],
-                                   max_list_size=op["maxrep"])
+        res = await client.bulkget(keep("scalars", lambda: [OID(o) for o in op["scalars"]]),
+                                   keep("repeaters", lambda: [OID(o) for o in op["repeaters"]]), max_list_size=op["maxrep"])
         return {"scalars": [(oid_t(o), to_ref(v)) for o, v in res.scalars.items()],
                 "listing": [(oid_t(o), to_ref(v)) for o, v in res.listing.items()]}
     if k == "walk":
@@ -51,10 +62,10 @@ async def do_op(client: Any, op: dict) -> Any:
     if k == "multiwalk":
         kw = {"errors": op["errors"]} if "errors" in op else {}
         return [(oid_t(vb.oid), to_ref(vb.value))
-                for vb in await collect(client.multiwalk([OID(r) for r in op["roots"]], **kw))]
+                for vb in await collect(client.multiwalk(keep("roots", lambda: [OID(r) for r in op["roots"]]), **kw))]
     if k == "bulkwalk":
         return [(oid_t(vb.oid), to_ref(vb.value))
-                for vb in await collect(client.bulkwalk([OID(r) for r in op["roots"]], bulk_size=op["bulk"]))]
+                for vb in await collect(client.bulkwalk(keep("roots", lambda: [OID(r) for r in op["roots"]]), bulk_size=op["bulk"]))]
     if k == "table":
         return norm_table(await client.table(OID(op["oid"])))
     if k == "bulktable":
